@@ -150,11 +150,19 @@ def check(template: str, a: Any, b: Any, targets: Optional[List[str]] = None) ->
         return concrete_check(template, a, b)
     role_a, role_b = TEMPLATES[template]
     collides: Any = False
-    for target in (targets or LANGS + list(GENERIC)):
-        for x in names_of(target, role_a, a):
-            for y in names_of(target, role_b, b):
-                if x == y:
-                    collides = True
+    import icontract
+    try:
+        for target in (targets or LANGS + list(GENERIC)):
+            for x in names_of(target, role_a, a):
+                for y in names_of(target, role_b, b):
+                    if x == y:
+                        collides = True
+    except icontract.ViolationError:
+        # A pre-condition of a naming function (Identifier: a regular expression, which CrossHair only approximates on a
+        # symbolic string) failed on this path.  Like a collision this is only a nomination: the concrete replay runs the
+        # real generators on the witness, where a real contract violation surfaces as an exception (= a violation).
+        _COUNTER[0] += 1
+        raise Violation(f"candidate:{template}:{_COUNTER[0]}", "")
     if collides:
         # a candidate: the runner replays the witness concretely (front end + every target's verification)
         _COUNTER[0] += 1
